@@ -79,9 +79,10 @@ StFromObs(p) ==
 Applicable(s, c) ==
   /\ c.h \in TH
   /\ c.op \in {"new", "from_str", "from_static", "with_capacity", "from_char", "clone", "clone_from", "drop", "reserve",
-               "shrink_to", "push_str", "pop", "truncate", "clear", "remove", "insert_str", "retain", "extend", "collect", "compare", "display", "from_utf8_lossy", "from_utf16", "from_utf16_lossy"}
+               "shrink_to", "push_str", "pop", "truncate", "clear", "remove", "insert_str", "retain", "extend", "collect", "compare", "display", "from_utf8_lossy", "from_utf16", "from_utf16_lossy", "clone_ovf"}
   /\ (c.op \in P!Ctors) <=> (s.hs[c.h].k = "D")
-  /\ c.op \in {"clone", "clone_from", "compare"} => (c.g \in TH /\ s.hs[c.g].k # "D" /\ c.g # c.h)
+  /\ c.op \in {"clone", "clone_from", "compare", "clone_ovf"} => (c.g \in TH /\ s.hs[c.g].k # "D" /\ c.g # c.h)
+  /\ c.op = "clone_ovf" => s.hs[c.g].k = "H"
   /\ c.op = "from_static" => c.g \in DOMAIN TStatics
   /\ LS!HasFreeBuf(s.bufs)
 
